@@ -32,9 +32,10 @@ Definition ceil_div (a b : N) : N := (a + b - 1) / b.
 (* TensorBase.nbytes = math.ceil(itemsize * size), itemsize = bitwidth / 8 (exact for size < 2^50) *)
 Definition nbytes_bw (bw size : N) : N := ceil_div (size * bw) itemsize_divisor.
 
-(* What the code computes: `math.ceil(self.dtype.itemsize * self.size)` in float64.  itemsize = bitwidth/8 is a
-   power of two, so the only rounding is the int -> float conversion of `size` (nearest, ties to even, 53
-   significant bits); the product and the ceiling are then exact. *)
+(* TensorBase.nbytes is `(bitwidth * size + 7) // 8` = Gen.nbytes_code (integer arithmetic, since fix c6a08a9).
+   Before that fix it was `math.ceil(self.dtype.itemsize * self.size)` in float64: itemsize = bitwidth/8 is a power
+   of two, so the only rounding was the int -> float conversion of `size` (nearest, ties to even, 53 significant
+   bits); kept as `nbytes_float_before_fix` for the record of the repaired defect. *)
 Definition rne53 (n : N) : N :=
   if n <? 2 ^ 53 then n
   else let e := N.log2 n - 52 in
@@ -42,7 +43,7 @@ Definition rne53 (n : N) : N :=
        let r := n - N.shiftl q e in
        let half := 2 ^ (e - 1) in
        if (half <? r) || ((r =? half) && N.odd q) then N.shiftl (q + 1) e else N.shiftl q e.
-Definition nbytes_code (bw size : N) : N := ceil_div (rne53 size * bw) itemsize_divisor.
+Definition nbytes_float_before_fix (bw size : N) : N := ceil_div (rne53 size * bw) itemsize_divisor.
 
 Definition shape_size (shape : list N) : N := fold_right N.mul 1 shape.
 Definition nsize (shape : list N) : nat := N.to_nat (shape_size shape).
@@ -519,7 +520,7 @@ Inductive represents (dt : N) (shape : list N) (xs : list N) : rep -> Prop :=
 
 (* the logical data itself is well formed *)
 Definition logical (dt : N) (shape : list N) (xs : list N) : Prop :=
-  exists bw, bitwidth dt = Some bw /\ in_range bw xs /\ length xs = nsize shape /\ shape_size shape < 2 ^ 53.
+  exists bw, bitwidth dt = Some bw /\ in_range bw xs /\ length xs = nsize shape.
 
 (* ------------------------------------------------------------------ string tensors *)
 
@@ -538,7 +539,15 @@ Inductive srep : Type :=
 | SBytesArray (shape : list N) (ss : list (list N)) (* StringTensor over an 'S' ndarray (already fixed width) *)
 | SProto (shape : list N) (ss : list (list N)).     (* TensorProtoTensor with data_type STRING *)
 
+(* numpy(): list/proto-backed tensors build an object array, which keeps every byte (since fix 5633eae) *)
 Definition s_numpy (r : srep) : list (list N) :=
+  match r with
+  | SList _ ss | SProto _ ss | SObjArray _ ss => ss
+  | SBytesArray _ ss => map np_bytes_elem ss
+  end.
+
+(* before fix 5633eae: np.array(list_of_bytes) -> fixed-width 'S' dtype, trailing NULs dropped *)
+Definition s_numpy_before_fix (r : srep) : list (list N) :=
   match r with
   | SList _ ss | SProto _ ss | SBytesArray _ ss => map np_bytes_elem ss
   | SObjArray _ ss => ss
@@ -551,11 +560,3 @@ Definition s_string_data (r : srep) : list (list N) :=
   end.
 
 Definition s_nbytes (r : srep) : N := fold_right (fun s a => N.of_nat (length s) + a) 0 (s_string_data r).
-
-(* numpy() of string tensors after the proposed repair (proposed_fixes/C04-string-trailing-nul.diff): list- and
-   proto-backed tensors build an object array, which keeps every byte *)
-Definition s_numpy_fixed (r : srep) : list (list N) :=
-  match r with
-  | SList _ ss | SProto _ ss | SObjArray _ ss => ss
-  | SBytesArray _ ss => map np_bytes_elem ss
-  end.
